@@ -161,6 +161,56 @@ def stream_calculators(chk, drv, rng, tier):
             judge(chk, 'calc.' + fn + (':' + kw['confint'] if kw else ''), SCALE[fn], recs, case)
 
 
+def stream_dtypes(chk, rng, tier):
+    """count calculators fed numpy fixed-width scalars and 0-d arrays: every count, group total and grand total fits
+    the dtype, so the result must be the one obtained from plain Python numbers (an se / limit that depends on the
+    container type is not the documented Wald formula)"""
+    import zepid.calc.utils as cu
+    kinds = [('int8', 28), ('int16', 7000), ('int32', 2500), ('int64', 2500), ('uint16', 7000), ('float32', 2500),
+             ('float64', 2500)]
+    for rep in range(2 if tier == 'quick' else 12):
+        for dt, hi in kinds:
+            for zero_d in (False, True):
+                a, b, c, d = (int(x) for x in rng.integers(1, hi, size=4))
+                t1, t2 = (int(x) for x in rng.integers(max(2, hi // 6), hi, size=2))
+                T = np.dtype(dt).type
+                conv = (lambda v: np.array(v, dtype=dt)) if zero_d else T
+                calls = [(fn, (a, b, c, d), {}) for fn in CALC4] + \
+                        [(fn, (a, c, t1, t2), {}) for fn in ('incidence_rate_ratio', 'incidence_rate_difference')] + \
+                        [('risk_ci', (a, a + b), {'confint': 'wald'}),
+                         ('risk_ci', (a, a + b), {'confint': 'hypergeometric'}), ('incidence_rate_ci', (a, t1), {}),
+                         ('sensitivity', (a, a + b), {'confint': 'wald'}),
+                         ('sensitivity', (a, a + b), {'confint': 'hypergeometric'}),
+                         ('specificity', (c, c + d), {'confint': 'wald'}),
+                         ('specificity', (c, c + d), {'confint': 'hypergeometric'})]
+                for fn, args, kw in calls:
+                    alpha = float(rng.choice([0.05, 0.2, 0.01]))
+                    case = {'stream': 'dtype', 'fn': fn, 'args': list(args), 'kw': kw, 'dtype': dt, 'zero_d': zero_d,
+                            'alpha': alpha}
+                    chk.case(case, ('dtype', fn, dt, zero_d, args, str(kw)))
+                    chk.count('dtype:' + dt + ('/0d' if zero_d else ''))
+                    base = [float(x) for x in getattr(cu, fn)(*[float(v) if dt.startswith('float') else v
+                                                                 for v in args], alpha=alpha, **kw)[:4]]
+                    try:
+                        with np.errstate(all='ignore'):
+                            got = [float(x) for x in getattr(cu, fn)(*[conv(v) for v in args], alpha=alpha, **kw)[:4]]
+                        err = None
+                    except Exception as e:      # noqa: BLE001
+                        got, err = None, repr(e)
+                    case.update(plain=base, got=got, error=err)
+                    # float32 inputs are computed in single precision (eps 6e-8); everything else is exact in double
+                    rt, at = (2e-5, 2e-6) if dt == 'float32' else (1e-12, 1e-14)
+                    cg, cb = got, base
+                    if got is not None and fn == 'number_needed_to_treat' and dt == 'float32':
+                        # single-precision rounding of RD -/+ z*se is amplified without bound by the reciprocal when a
+                        # limit of the risk difference is near 0: compare on the (documented) reciprocal = RD scale
+                        cg = [1 / v if v not in (0.0,) and math.isfinite(v) else v for v in got[:3]] + [got[3]]
+                        cb = [1 / v if v not in (0.0,) and math.isfinite(v) else v for v in base[:3]] + [base[3]]
+                    ok = got is not None and all(close(g, w, rtol=rt, atol=at) for g, w in zip(cg, cb))
+                    chk.d(ok, 'count calculator: estimate, se and limits do not depend on the numeric container type '
+                          '(numpy fixed-width scalar / 0-d array vs Python number)', case)
+
+
 FRAME = {'RiskRatio': [('RiskRatio', 'SD(RR)', 'RR_LCL', 'RR_UCL', 'log'), ('Risk', 'SD(Risk)', 'Risk_LCL', 'Risk_UCL', 'lin')],
          'RiskDifference': [('RiskDifference', 'SD(RD)', 'RD_LCL', 'RD_UCL', 'lin'),
                             ('Risk', 'SD(Risk)', 'Risk_LCL', 'Risk_UCL', 'lin')],
@@ -236,6 +286,22 @@ def enc_opt(xs):
     return ','.join('_' if math.isnan(float(x)) else fx(x) for x in xs) or '[]'
 
 
+def history_check(chk, who, got, want, case):
+    """got / want: {measure: (est, se, lcl, ucl)} of an object with a history of earlier specifications and fits vs a
+    fresh object given only the last specification"""
+    chk.case(case, ('history', who, case.get('data_hash')))
+    chk.count('history:' + who)
+    for meas in sorted(want):
+        g = got.get(meas)
+        chk.d(g is not None and all(close(float(x), float(w), rtol=1e-10, atol=1e-13) for x, w in zip(g, want[meas])),
+              '%s %s: estimate, se and limits after earlier fits / respecifications on the same object = those of a '
+              'fresh object' % (who, meas), dict(case, measure=meas, refit=g, fresh=want[meas]))
+
+
+def rec_tuple(r):
+    return (r['est'], r['se'], r['lcl'], r['ucl'])
+
+
 def stream_aiptw(chk, drv, rng, tier):
     from zepid.causal.doublyrobust import AIPTW
     for rep in range(1 if tier == 'quick' else 5):
@@ -276,6 +342,33 @@ def stream_aiptw(chk, drv, rng, tier):
                         judge(chk, 'AIPTW:' + meas, scale, recs, case)
                     if not weighted:
                         aiptw_variance(chk, drv, last, ytype, missing, case)
+                    # history: coarser models fitted first on the same object, then the final specification
+                    hc = dict(case, history='exposure L / outcome A+L fitted first, then respecified and fitted again',
+                              alpha=grid[-1])
+                    try:
+                        h = AIPTW(df if weighted else df.drop(columns='wt'), exposure='A', outcome='Y', alpha=grid[-1],
+                                  weights='wt' if weighted else None)
+                        h.exposure_model('L', print_results=False)
+                        if missing:
+                            h.missing_model('A', print_results=False)
+                        h.outcome_model('A + L', print_results=False)
+                        h.fit()
+                        h.exposure_model('L + V', print_results=False)
+                        if missing:
+                            h.missing_model('A + L', print_results=False)
+                        h.outcome_model('A + L + V', print_results=False)
+                        h.fit()
+                        h.fit()
+                        if ytype == 'binary':
+                            got = {'risk_difference': (h.risk_difference, h.risk_difference_se) + tuple(h.risk_difference_ci),
+                                   'risk_ratio': (h.risk_ratio, h.risk_ratio_se) + tuple(h.risk_ratio_ci)}
+                        else:
+                            got = {'average_treatment_effect': (h.average_treatment_effect, h.average_treatment_effect_se)
+                                   + tuple(h.average_treatment_effect_ci)}
+                    except Exception as e:      # noqa: BLE001
+                        got = {}
+                        hc['error'] = repr(e)
+                    history_check(chk, 'AIPTW', got, {meas: rec_tuple(recs[-1]) for (meas, sc), recs in store.items()}, hc)
 
 
 def aiptw_variance(chk, drv, m, ytype, missing, case):
@@ -374,6 +467,32 @@ def stream_tmle(chk, drv, rng, tier):
                 chk.count('tmle:%s/%s' % (ytype, 'miss' if missing else 'full'))
                 for (meas, scale), recs in sorted(store.items()):
                     judge(chk, 'TMLE:' + meas, scale, recs, case, tmle=True)
+                hc = dict(case, history='exposure L / outcome A+L fitted first, then respecified and fitted again',
+                          alpha=GRID[-1])
+                try:
+                    h = TMLE(df, exposure='A', outcome='Y', alpha=GRID[-1])
+                    h.exposure_model('L', print_results=False)
+                    if missing:
+                        h.missing_model('A', print_results=False)
+                    h.outcome_model('A + L', print_results=False)
+                    h.fit()
+                    h.exposure_model('L + V', print_results=False)
+                    if missing:
+                        h.missing_model('A + L', print_results=False)
+                    h.outcome_model('A + L + V', print_results=False)
+                    h.fit()
+                    h.fit()
+                    if ytype == 'binary':
+                        got = {'risk_difference': (h.risk_difference, h.risk_difference_se) + tuple(h.risk_difference_ci),
+                               'risk_ratio': (h.risk_ratio, h.risk_ratio_se) + tuple(h.risk_ratio_ci),
+                               'odds_ratio': (h.odds_ratio, h.odds_ratio_se) + tuple(h.odds_ratio_ci)}
+                    else:
+                        got = {'average_treatment_effect': (h.average_treatment_effect, h.average_treatment_effect_se)
+                               + tuple(h.average_treatment_effect_ci)}
+                except Exception as e:      # noqa: BLE001
+                    got = {}
+                    hc['error'] = repr(e)
+                history_check(chk, 'TMLE', got, {meas: rec_tuple(recs[-1]) for (meas, sc), recs in store.items()}, hc)
                 pr = getattr(last, '_verif_probe_', None)
                 if pr is None:
                     chk.count('tmle_probe_unavailable')
@@ -421,6 +540,35 @@ def stream_stmle(chk, drv, rng, tier):
             chk.count('stmle:' + ytype)
             for meas, recs in sorted(store.items()):
                 judge(chk, 'StochasticTMLE:' + meas, 'lin', recs, case)
+            # history: several plans fitted on ONE object; each fit must report what a fresh object reports for
+            # that plan (estimate, both standard errors, both intervals)
+            plans = [q for q in (0.9, 0.1, p) ]
+            obj = StochasticTMLE(df, exposure='A', outcome='Y', alpha=0.1)
+            obj.exposure_model('L + V')
+            obj.outcome_model('A + L + V')
+            for i, q in enumerate(plans):
+                hc = dict(case, history='fit #%d on one object, plans so far %s' % (i + 1, plans[:i + 1]), p=q, alpha=0.1)
+                chk.case(hc, ('stmle-history', ytype, i, hash(df.to_csv())))
+                chk.count('history:stmle')
+                try:
+                    obj.fit(p=q, samples=8, seed=777 + rep)
+                    fr = StochasticTMLE(df, exposure='A', outcome='Y', alpha=0.1)
+                    fr.exposure_model('L + V')
+                    fr.outcome_model('A + L + V')
+                    fr.fit(p=q, samples=8, seed=777 + rep)
+                    got = [obj.marginal_outcome, obj.marginal_se, obj.conditional_se] + list(obj.marginal_ci) + \
+                        list(obj.conditional_ci)
+                    want = [fr.marginal_outcome, fr.marginal_se, fr.conditional_se] + list(fr.marginal_ci) + \
+                        list(fr.conditional_ci)
+                    ok = all(close(float(g), float(w), rtol=1e-10, atol=1e-13) for g, w in zip(got, want))
+                    hc.update(refit=[float(x) for x in got], fresh=[float(x) for x in want])
+                except Exception as e:      # noqa: BLE001
+                    ok = False
+                    hc['error'] = repr(e)
+                chk.d(ok, 'StochasticTMLE: estimate, se and limits of a later fit on the same object = those of a fresh '
+                      'object for that plan', hc)
+                judge(chk, 'StochasticTMLE:marginal(refit)', 'lin',
+                      [rec_of(0.1, obj.marginal_outcome, obj.marginal_se, obj.marginal_ci)], hc, fixed_alpha=True)
 
 
 def sort_median(v):
@@ -445,50 +593,91 @@ def k_pool(chk, drv, who, method, pts, vs, est, var, case):
     chk.k(ok, '%s: model pool vs implementation' % who, {'case': case, 'model': rep})
 
 
+def crossfit_measures(m, cname, ytype):
+    if ytype == 'binary':
+        new = [('risk_difference', 'lin', m.risk_difference, m.risk_difference_se, m.risk_difference_ci,
+                m.risk_difference_vector, m.risk_difference_var_vector, False),
+               ('risk_ratio', 'log', m.risk_ratio, m.risk_ratio_se, m.risk_ratio_ci,
+                m.risk_ratio_vector, m.risk_ratio_var_vector, True)]
+        if 'TMLE' in cname:
+            new.append(('odds_ratio', 'log', m.odds_ratio, m.odds_ratio_se, m.odds_ratio_ci,
+                        m.odds_ratio_vector, m.odds_ratio_var_vector, True))
+        return new
+    return [('ace', 'lin', m.ace, m.ace_se, m.ace_ci, m.ace_vector, m.ace_var_vector, False)]
+
+
 def stream_crossfit(chk, drv, rng, tier):
+    """all four cross-fit classes, BOTH pooling methods: every reported measure is re-pooled from its *_vector /
+    *_var_vector attributes with the method that was asked for; then one object is fitted a second time with the
+    other method and must report what a fresh object reports"""
     from sklearn.linear_model import LogisticRegression, LinearRegression
     import zepid.causal.doublyrobust as dr
     classes = [('SingleCrossfitAIPTW', 2), ('DoubleCrossfitAIPTW', 3), ('SingleCrossfitTMLE', 2),
                ('DoubleCrossfitTMLE', 3)]
-    plan = [('binary', 'median')] if tier == 'quick' else [('binary', 'median'), ('binary', 'mean'),
-                                                          ('continuous', 'median')]
-    for ytype, method in plan:
+    if tier == 'quick':
+        plan = [('binary', [('median', GRID_TINY), ('mean', [0.05, 0.3])])]
+    else:
+        plan = [('binary', [('median', GRID_SMALL), ('mean', GRID_SMALL)]),
+                ('continuous', [('median', GRID_SMALL), ('mean', [0.05, 0.3])])]
+    nparts = {'median': 3, 'mean': 4}
+
+    def make(cname, alpha, ytype, df):
+        m = getattr(dr, cname)(df, exposure='A', outcome='Y', alpha=alpha)
+        m.exposure_model('L + V', LogisticRegression(penalty=None, solver='lbfgs'))
+        m.outcome_model('A + L + V', LogisticRegression(penalty=None, solver='lbfgs') if ytype == 'binary'
+                        else LinearRegression())
+        return m
+    for ytype, methods in plan:
         df = gen_causal(rng, int(rng.integers(180, 260)), ytype, False).drop(columns='wt')
         for cname, ns in classes:
-            store = {}
-            case = {'estimator': cname, 'ytype': ytype, 'method': method, 'n': len(df), 'data_hash': hash(df.to_csv())}
-            for alpha in (GRID_TINY if tier == 'quick' else GRID_SMALL):
-                m = getattr(dr, cname)(df, exposure='A', outcome='Y', alpha=alpha)
-                m.exposure_model('L + V', LogisticRegression(penalty=None, solver='lbfgs'))
-                m.outcome_model('A + L + V', LogisticRegression(penalty=None, solver='lbfgs') if ytype == 'binary'
-                                else LinearRegression())
-                m.fit(n_splits=ns, n_partitions=3 if method == 'median' else 4, method=method, random_state=777)
-                if ytype == 'binary':
-                    new = [('risk_difference', 'lin', m.risk_difference, m.risk_difference_se, m.risk_difference_ci,
-                            m.risk_difference_vector, m.risk_difference_var_vector, False),
-                           ('risk_ratio', 'log', m.risk_ratio, m.risk_ratio_se, m.risk_ratio_ci,
-                            m.risk_ratio_vector, m.risk_ratio_var_vector, True)]
-                    if 'TMLE' in cname:
-                        new.append(('odds_ratio', 'log', m.odds_ratio, m.odds_ratio_se, m.odds_ratio_ci,
-                                    m.odds_ratio_vector, m.odds_ratio_var_vector, True))
-                else:
-                    new = [('ace', 'lin', m.ace, m.ace_se, m.ace_ci, m.ace_vector, m.ace_var_vector, False)]
-                for meas, scale, est, se, ci, vec, vvec, logscale in new:
-                    store.setdefault((meas, scale), []).append(rec_of(alpha, est, se, ci))
-                    k_ci(chk, drv, cname + '.' + meas, scale, float(est), z_of(alpha), float(se), float(ci[0]),
-                         float(ci[1]), dict(case, alpha=alpha))
-                    pts = [math.log(float(x)) for x in vec] if logscale else [float(x) for x in vec]
-                    p, v = pooled(pts, vvec, method)
-                    c = dict(case, alpha=alpha, measure=meas, vector=[float(x) for x in vec],
-                             var_vector=[float(x) for x in vvec])
-                    chk.d(close(math.log(float(est)) if logscale else float(est), p, rtol=1e-11, atol=1e-14) and
-                          close(float(se) ** 2, v, rtol=1e-10, atol=1e-18),
-                          '%s %s: pooled estimate / variance = %s of (var + (est - pooled)^2)' % (cname, meas, method), c)
-                    k_pool(chk, drv, cname + '.' + meas, method, pts, [float(x) for x in vvec],
-                           math.log(float(est)) if logscale else float(est), float(se) ** 2, c)
-            chk.count('crossfit:%s/%s/%s' % (cname, ytype, method))
-            for (meas, scale), recs in sorted(store.items()):
-                judge(chk, cname + ':' + meas, scale, recs, case)
+            fresh = {}
+            keep = None
+            for method, grid in methods:
+                store = {}
+                case = {'estimator': cname, 'ytype': ytype, 'method': method, 'n': len(df),
+                        'data_hash': hash(df.to_csv())}
+                for alpha in grid:
+                    m = make(cname, alpha, ytype, df)
+                    m.fit(n_splits=ns, n_partitions=nparts[method], method=method, random_state=777)
+                    if method == 'mean' and alpha == 0.05:
+                        keep = m
+                    for meas, scale, est, se, ci, vec, vvec, logscale in crossfit_measures(m, cname, ytype):
+                        store.setdefault((meas, scale), []).append(rec_of(alpha, est, se, ci))
+                        fresh[(method, alpha, meas)] = (float(est), float(se), float(ci[0]), float(ci[1]))
+                        k_ci(chk, drv, cname + '.' + meas, scale, float(est), z_of(alpha), float(se), float(ci[0]),
+                             float(ci[1]), dict(case, alpha=alpha))
+                        pts = [math.log(float(x)) for x in vec] if logscale else [float(x) for x in vec]
+                        p, v = pooled(pts, vvec, method)
+                        c = dict(case, alpha=alpha, measure=meas, vector=[float(x) for x in vec],
+                                 var_vector=[float(x) for x in vvec])
+                        chk.d(len(vec) == nparts[method] and len(vvec) == nparts[method] and
+                              close(math.log(float(est)) if logscale else float(est), p, rtol=1e-11, atol=1e-14) and
+                              close(float(se) ** 2, v, rtol=1e-10, atol=1e-18),
+                              '%s %s: pooled estimate / variance = %s of (var + (est - pooled)^2) over the partitions'
+                              % (cname, meas, method), c)
+                        k_pool(chk, drv, cname + '.' + meas, method, pts, [float(x) for x in vvec],
+                               math.log(float(est)) if logscale else float(est), float(se) ** 2, c)
+                chk.count('crossfit:%s/%s/%s' % (cname, ytype, method))
+                for (meas, scale), recs in sorted(store.items()):
+                    judge(chk, cname + ':' + meas, scale, recs, case)
+            # history: the object fitted with method='mean' is fitted again with method='median'
+            if keep is not None:
+                hc = {'estimator': cname, 'ytype': ytype, 'history': "fit(method='mean') then fit(method='median')",
+                      'n': len(df)}
+                try:
+                    keep.fit(n_splits=ns, n_partitions=nparts['median'], method='median', random_state=777)
+                    got = {meas: (float(est), float(se), float(ci[0]), float(ci[1]))
+                           for meas, scale, est, se, ci, vec, vvec, logscale in crossfit_measures(keep, cname, ytype)}
+                    err = None
+                except Exception as e:      # noqa: BLE001
+                    got, err = {}, repr(e)
+                chk.case(hc, ('crossfit-history', cname, ytype))
+                chk.count('history:crossfit')
+                for meas in sorted(k[2] for k in fresh if k[0] == 'median' and k[1] == 0.05):
+                    want = fresh[('median', 0.05, meas)]
+                    chk.d(meas in got and all(close(g, w, rtol=1e-10, atol=1e-13) for g, w in zip(got[meas], want)),
+                          '%s %s: a second fit on the same object reports what a fresh object reports' % (cname, meas),
+                          dict(hc, measure=meas, refit=got.get(meas), fresh=want, error=err))
 
 
 def stream_joint(chk, drv, rng, tier):
@@ -637,6 +826,29 @@ def stream_iptw(chk, drv, rng, tier):
                     if ytype == 'binary':
                         want['OR'] = ((m1 / (1 - m1)) / (m0 / (1 - m0)),
                                       v1 / (m1 * (1 - m1)) ** 2 + v0 / (m0 * (1 - m0)) ** 2)
+                    hc = dict(case, history='treatment model L fitted first, then respecified and fitted twice')
+                    try:
+                        h = IPTW(df, treatment='A', outcome='Y', weights='wt' if weighted else None)
+                        h.treatment_model('L', print_results=False)
+                        if missing:
+                            h.missing_model('A', print_results=False)
+                        h.marginal_structural_model('A')
+                        with warnings.catch_warnings():
+                            warnings.simplefilter('ignore')
+                            h.fit()
+                            h.treatment_model('L + V', print_results=False)
+                            if missing:
+                                h.missing_model('A + L', print_results=False)
+                            h.fit()
+                            h.fit()
+                        got = {pc: tuple(float(getattr(h, attr).loc['A', k]) for k in (pc, sc, '95%LCL', '95%UCL'))
+                               for attr, pc, sc, scale in tabs}
+                    except Exception as e:      # noqa: BLE001
+                        got = {}
+                        hc['error'] = repr(e)
+                    history_check(chk, 'IPTW', got,
+                                  {pc: tuple(float(getattr(m, attr).loc['A', k]) for k in (pc, sc, '95%LCL', '95%UCL'))
+                                   for attr, pc, sc, scale in tabs}, hc)
                     model = None
                     if drv is not None:
                         model, _ = drv.ask('msm', a=enc_list(aa, lambda v: '1' if v == 1 else '0'),
@@ -669,6 +881,7 @@ def run(chk, drv, rng, tier):
     chk.extra['alpha_grid'] = GRID
     stream_quantile(chk, drv)
     stream_calculators(chk, drv, rng, tier)
+    stream_dtypes(chk, rng, tier)
     stream_frames(chk, drv, rng, tier)
     stream_joint(chk, drv, rng, tier)
     stream_calculators_ic(chk, drv, rng, tier)
